@@ -383,8 +383,9 @@ CLAIMED["C16"] = dict(
   note="Trusted: TLC, the recorder (wraps meshes._stretch and "
        "meshes.origin_and_widths at run time), the harness's formulas "
        "(tolerance 1e-9 of the extent).  'No such mesh exists' is relative "
-       "to the candidates the search enumerates.  estimate_gridding_opts is "
-       "not covered.",
+       "to the candidates the search enumerates.  estimate_gridding_opts: "
+       "decision table (GridOpts.tla) + classification of the real "
+       "function's output against the harness's own estimates.",
   ref="DESIGN.md section 5 (C16)", engine="tlc-gridding")
 
 CLAIMED["C14"] = dict(
